@@ -35,6 +35,16 @@ def alpha_near(a, b):
     return bool(np.all(np.abs(a - b) <= 1e-5 * scale))
 
 
+FINE = 2.0 ** -8
+
+
+def hmin(stripes):
+    """smallest node distance of a grid; below 2^-8 the code's antiderivative expressions lose more than half of the digits
+    by cancellation (relative error ~ eps * x^3 / h^3) and runs that differ only in WHERE an entry was computed are no longer
+    comparable at a fixed tolerance -- such evaluations are counted (`ambiguous_float_fine_grid`) and not compared"""
+    return min(float(s[i + 1]) - float(s[i]) for s in stripes for i in range(len(s) - 1))
+
+
 def rec_op_class():
     from sparseSpACE.GridOperation import DensityEstimation
 
@@ -136,7 +146,9 @@ def replay_on_model(ck, drv, case, op, reuse, label):
                 k = next((i for i in range(min(len(b), len(mb))) if not near(b[i], mb[i], TOL)), -1)
                 ck.corr(label + "/calculate_B_dimension_wise", dict(case, step=nev, stripes=[[frac_str(c) for c in s] for s in st]),
                         {"entry": k, "impl": float(b[k]) if k >= 0 else len(b)}, {"model": str(mb[k]) if k >= 0 else len(mb)})
-            if not lumped:
+            if not lumped and hmin(stripes) < FINE:
+                ctx.count("ambiguous_float_fine_grid")
+            elif not lumped:
                 if rpart.startswith("R "):
                     Rm = parse_mat(rpart[2:])
                     n = len(Rm)
@@ -246,7 +258,20 @@ def run_history(ctx, drv, case):
         posts_off = [e[1] for e in off[0].rec if e[0] == "post"]
         maxN = 0
         diverged = False
+        k = 0
+        # index of the first evaluation on a grid finer than FINE, per refinement step
+        step_fine = []
+        fine = False
+        for e in on[0].rec:
+            if e[0] == "R" and hmin(e[1]) < FINE:
+                fine = True
+            if e[0] == "post":
+                step_fine.append(fine)
         for k, (so, sf) in enumerate(zip(posts_on, posts_off)):
+            if k < len(step_fine) and step_fine[k]:
+                diverged = True
+                ctx.count("ambiguous_float_fine_grid_history_cut")
+                break
             if so.keys() != sf.keys() or any(len(so[key]) != len(sf[key]) for key in so):
                 # the refinement went different ways although every earlier evaluation agreed: a float near-tie
                 diverged = True
@@ -274,11 +299,25 @@ def run_history(ctx, drv, case):
                         {"step": k, "levelvector": list(key), "max_abs_diff": float(np.max(np.abs(so[key] - sf[key]))), "points_in_grid": len(so[key])})
                 diverged = True
                 break
-        if not diverged:
-            # every single evaluation: right-hand sides identical, matrices equal up to the rounding of the entries
-            ev_on = [e for e in on[0].rec if e[0] in ("R", "B")]
-            ev_off = [e for e in off[0].rec if e[0] in ("R", "B")]
-            for e1, e2 in zip(ev_on, ev_off):
+        # every single evaluation of the steps compared so far: right-hand sides identical, matrices equal up to the
+        # rounding of the entries
+        steps_ok = k if diverged else min(len(posts_on), len(posts_off))
+        def evals_until(rec, nsteps):
+            out, seen = [], 0
+            for e in rec:
+                if e[0] == "post":
+                    seen += 1
+                    if seen >= nsteps:
+                        break
+                else:
+                    out.append(e)
+            return out if nsteps > 0 else []
+        if ck.ok:
+            for e1, e2 in zip(evals_until(on[0].rec, steps_ok), evals_until(off[0].rec, steps_ok)):
+                if e1[0] != e2[0]:
+                    break
+                if e1[0] == "R" and hmin(e1[1]) < FINE:
+                    continue
                 if e1[0] == "B" and not vec_near(e1[1], e2[1], 1e-12):
                     ck.viol("reuse-changes-rhs", dict(tags, cause="unexplained", grid_ge_200=len(e1[1]) >= 200), case,
                             {"max_abs_diff_rhs": float(np.max(np.abs(e1[1] - e2[1])))})
@@ -287,6 +326,8 @@ def run_history(ctx, drv, case):
                                      not all(c16.near_entry(x, y) for x, y in zip(np.ravel(e1[3]), np.ravel(e2[3])))):
                     ck.viol("reuse-changes-matrix", tags, case, {"stripes": str(e1[1])[:300]})
                     break
+            ctx.count("history_steps_compared", steps_ok)
+        if not diverged:
             if len(posts_on) != len(posts_off):
                 ck.viol("reuse-changes-history-length", tags, case, {"on": len(posts_on), "off": len(posts_off)})
             if on[2] != off[2]:
